@@ -91,6 +91,7 @@ def fibre(
     match_reverse=None,
     front_only=False,
     ta_on_ref=False,
+    power_loss=0.02,
 ):
     x = make_x(rng, nx, span, irregular)
     nx = x.size
@@ -166,7 +167,7 @@ def fibre(
     K = gamma / (T + 273.15)
     truth = {"gamma": gamma}
     amp = amp or (lambda: rng.uniform(1500.0, 6000.0))
-    P = amp() * (1 + 0.05 * rng.normal(size=(1, nt))) * np.exp(-2e-4 * (100.0 / max(span, 1.0)) * x[:, None])
+    P = amp() * (1 + 0.05 * rng.normal(size=(1, nt))) * np.exp(-power_loss * x[:, None] / max(x[-1], 1e-9))
     dv = {}
     if not double:
         C = rng.uniform(1.2, 1.8) + 0.03 * rng.normal(size=nt)
@@ -192,7 +193,7 @@ def fibre(
             TAB[x < p] += tab[k][None, :]
         IF = K - DF[None, :] - A[:, None] - TAF
         IB = K - DB[None, :] + A[:, None] - TAB
-        P2 = amp() * (1 + 0.05 * rng.normal(size=(1, nt))) * np.exp(-2e-4 * (100.0 / max(span, 1.0)) * (x[-1] - x[:, None]))
+        P2 = amp() * (1 + 0.05 * rng.normal(size=(1, nt))) * np.exp(-power_loss * (x[-1] - x[:, None]) / max(x[-1], 1e-9))
         dv["st"], dv["ast"] = P.copy(), P * np.exp(-IF)
         dv["rst"], dv["rast"] = P2.copy(), P2 * np.exp(-IB)
         truth.update(df=DF, db=DB, A=A, taf=taf, tab=tab, IF=IF, IB=IB)
